@@ -10,27 +10,28 @@
                        when there is none), number of cells, ExactEquality on the row-wise sorted
                        corner arrays                                             (`Fc.exactCheck`)
 
-  The compatibility table `Gen.compatPairs` is regenerated from the source text on every run
+  The compatibility table `Gen.C16.compatPairs` is regenerated from the source text on every run
   (harness/fcv/tables/celltypes.py).  Cell types are identified by their VTK names; the table
   facts that make names and ids interchangeable are proved in FcProofs/Props/C16.lean.
 -/
 import FcModel.Mesh
 import FcGen.Tables
-namespace Fc
+namespace Fc.C03
+open Fc
 
 /-! ### cell-type compatibility -/
 
 /-- `c1.is_compatible_with(c2)`: same type, or `c2.id in _COMPATIBLES.get(c1.id, [])` -/
 def compatible (c1 c2 : String) : Bool :=
-  c1 == c2 || Gen.compatPairs.contains (c1, c2)
+  c1 == c2 || Gen.C16.compatPairs.contains (c1, c2)
 
 /-- the same on VTK ids (what the Python code literally evaluates) -/
 def compatibleId (i1 i2 : Nat) : Bool :=
-  i1 == i2 || Gen.compatIdPairs.contains (i1, i2)
+  i1 == i2 || Gen.C16.compatIdPairs.contains (i1, i2)
 
 /-- `CellType.from_name(name).id` -/
 def cellTypeId (name : String) : Option Nat :=
-  (Gen.cellTypeTable.find? (·.2 == name)).map (·.1)
+  (Gen.C16.cellTypeTable.find? (·.2 == name)).map (·.1)
 
 /-- `_without_compatibles(source_only, target_only)`: every pair (c1, c2) of the product with
     `c1.is_compatible_with(c2)` removes both members from the union -/
@@ -68,7 +69,7 @@ def cornerArr (rows : List (List Nat)) : NdArr :=
   ⟨.int true 64, [rows.length, (rows.head?.map List.length).getD 0], rows.flatten.map Int.ofNat⟩
 
 /-- the (npoints, dim) float64 point array -/
-def Mesh.pointArr (m : Mesh) : NdArr := ⟨.flt f64, [m.points.length, m.dim], m.points.flatten⟩
+def pointArr (m : Mesh) : NdArr := ⟨.flt f64, [m.points.length, m.dim], m.points.flatten⟩
 
 /-! ### `mesh_equal` -/
 
@@ -96,7 +97,7 @@ def cellsEqual (A B : Mesh) : Verdict :=
 
 /-- `mesh_equal(source, target, rel_tol=rel, abs_tol=abs)` with both tolerances given -/
 def meshEqualWith (rel abs : Nat) (A B : Mesh) : Verdict :=
-  match fuzzyCheck (.num rel) (.num abs) A.pointArr B.pointArr with
+  match fuzzyCheck (.num rel) (.num abs) (pointArr A) (pointArr B) with
   | .ok true => cellsEqual A B
   | v => v
 
@@ -120,17 +121,17 @@ def permutedEqual (A B : TMesh) : Verdict :=
 def maxAbsList (l : List Int) : Nat := l.foldl (fun m x => max m x.natAbs) 0
 
 /-- `max_abs_value(points) * default_mesh_relative_tolerance()` : one binary64 product -/
-def defaultAbsTolOf (maxAbs : Nat) : Option Nat := rndMag f64 (maxAbs * Gen.meshDefaultRelTol) UNIT
+def defaultAbsTolOf (maxAbs : Nat) : Option Nat := rndMag f64 (maxAbs * Gen.C16.meshDefaultRelTol) UNIT
 
-def Mesh.defaultAbsTol (m : Mesh) : Option Nat := defaultAbsTolOf (maxAbsList m.points.flatten)
+def meshDefaultAbsTol (m : Mesh) : Option Nat := defaultAbsTolOf (maxAbsList m.points.flatten)
 
 /-! ### well-formedness (the decidable hypothesis of the C03 / C16 theorems) -/
 
 /-- every point has `dim` coordinates; the type blocks carry pairwise different types (the Python
     mesh keeps them in a dict); the rows of one block have one common length (a numpy 2-d array) -/
-def Mesh.wfEq (m : Mesh) : Bool :=
+def wfEq (m : Mesh) : Bool :=
   m.points.all (·.length == m.dim) &&
   decide m.cellTypes.Nodup &&
   m.cells.all fun b => b.2.all fun row => row.length == (b.2.head?.map List.length).getD 0
 
-end Fc
+end Fc.C03
